@@ -66,7 +66,7 @@ package template
 // ---- Registry -----------------------------------------------------------------
 
 //@ func NewRegistry props=C15,C01
-//@   ensures err == nil && result != nil && RegInv(result)
+//@   ensures err == nil && result != nil && fresh(result) && RegInv(result)
 //@   ensures forall p string :: !(p in result.imports)
 //@   ensures result.dstPkgPath == dstPkgPath && result.inPackage == inPackage && result.srcPkg == srcPkg
 //@   assigns fresh
